@@ -1,11 +1,11 @@
 package handshake
 
 //symgo:pkg github.com/pion/dtls/v3/pkg/protocol/handshake
-//symgo:param NHELLOVAR quick=9 thorough=16
-//symgo:param NSHVAR quick=8 thorough=14
-//symgo:param NEXTLIST quick=9 thorough=12
+//symgo:param NHELLOVAR quick=8 thorough=12
+//symgo:param NSHVAR quick=12 thorough=16
+//symgo:param NEXTLIST quick=10 thorough=13
 //symgo:outside ClientHello/ServerHello bodies with more variable bytes after the 34-byte fixed part than NHELLOVAR/NSHVAR; extension lists longer than NEXTLIST bytes except in the fixed-shape dependency entries
-//symgo:assume ClientHello cipher_suites length field < 160 in the symbolic entries (engine enumerates at most 80 allocation sizes; the decoder allocates the declared count before validating it); larger values are run concretely in zzDecHsCipherSuiteIDsLargeCount
+//symgo:assume ClientHello cipher_suites length field < 128 in the symbolic entries (engine enumerates at most 80 allocation sizes; the decoder allocates the declared count before validating it); larger values are run concretely in zzDecHsCipherSuiteIDsLargeCount
 //symgo:assume the 32 random bytes of ClientHello are fixed to zero in zzDecHsClientHelloNoPanic (they are only copied, no branch reads them); ServerHello keeps them symbolic because the HelloRetryRequest magic value is compared
 
 import (
@@ -13,7 +13,7 @@ import (
 )
 
 // zzDecHsAssumeSmallCipherSuiteCount restricts the cipher_suites length field (found after session id and
-// cookie, RFC 6347 §4.2.1 layout) to values below 160: decodeCipherSuiteIDs allocates count entries before it
+// cookie, RFC 6347 §4.2.1 layout) to values below 128: decodeCipherSuiteIDs allocates count entries before it
 // checks them against the buffer, and the engine enumerates at most 80 allocation sizes. Larger declared counts
 // are exercised with concrete values in zzDecHsCipherSuiteIDsLargeCount.
 func zzDecHsAssumeSmallCipherSuiteCount(v []byte) {
@@ -29,14 +29,14 @@ func zzDecHsAssumeSmallCipherSuiteCount(v []byte) {
 	if q+1 >= len(v) {
 		return
 	}
-	zzsymAssume(zzsymAnd(v[q] == 0, v[q+1] < 160))
+	zzsymAssume(zzsymAnd(v[q] == 0, v[q+1] < 128))
 }
 
 // ClientHello.Unmarshal called directly on an arbitrary body: every length 0..34 (all rejected), and the 34-byte
 // fixed part followed by 0..NHELLOVAR arbitrary bytes (session id, cookie, cipher suites, compression methods,
 // extension list): no panic, loops end; retained session id, cookie and cipher suites fit in the variable part.
 //
-//symgo:entry covers=ch_ok,ch_ok_ext,ch_rejected,ch_short
+//symgo:entry covers=ch_ok,ch_rejected,ch_short
 func zzDecHsClientHelloNoPanic() {
 	var data []byte
 	if zzsymChoice("short", 2) == 1 {
@@ -60,17 +60,42 @@ func zzDecHsClientHelloNoPanic() {
 		return
 	}
 	zzsymAssert(len(m.SessionID)+len(m.Cookie)+2*len(m.CipherSuiteIDs)+len(m.CompressionMethods) <= nv, "decoded_message_not_larger_than_body")
-	if len(m.Extensions) > 0 {
-		zzsymCover("ch_ok_ext")
-	}
 	zzsymCover("ch_ok")
 }
 
+// ClientHello.Unmarshal on a body whose framing up to the extension list is minimal and fixed (empty session id,
+// empty cookie, one arbitrary cipher suite, one arbitrary compression method) followed by an arbitrary extension
+// list of every length 0..NEXTLIST: the offsets computed by ClientHello.Unmarshal feed the ClientHello extension
+// context: no panic; accepted hellos with decoded extensions are reached.
+//
+//symgo:entry covers=che_ok,che_ok_ext,che_rejected
+func zzDecHsClientHelloExtNoPanic() {
+	n := zzsymChoice("extlen", zzsymParam("NEXTLIST")+1)
+	data := make([]byte, handshakeMessageClientHelloVariableWidthStart)
+	data[0], data[1] = 0xfe, 0xfd
+	data = append(data, 0, 0, 0, 2)
+	data = append(data, zzsymBytes("suite", 2)...)
+	data = append(data, 1)
+	data = append(data, zzsymBytes("comp", 1)...)
+	data = append(data, zzsymBytes("ext", n)...)
+	m := MessageClientHello{}
+	if err := m.Unmarshal(data); err != nil {
+		zzsymCover("che_rejected")
+		return
+	}
+	zzsymAssert(len(m.CipherSuiteIDs) == 1, "one_cipher_suite_decoded")
+	if len(m.Extensions) > 0 {
+		zzsymCover("che_ok_ext")
+	}
+	zzsymCover("che_ok")
+}
+
 // ServerHello.Unmarshal called directly on the 34-byte fixed part (version + random, all arbitrary, so both the
-// ordinary and the HelloRetryRequest random are covered) followed by 0..NSHVAR arbitrary bytes (session id,
+// ordinary and the HelloRetryRequest random are possible; the accepting HelloRetryRequest side is in
+// zzDecHsHelloRetryRequestNoPanic) followed by 0..NSHVAR arbitrary bytes (session id,
 // cipher suite, compression method, optional extension list): no panic.
 //
-//symgo:entry covers=sh_ok,sh_ok_noext,sh_hrr,sh_rejected
+//symgo:entry covers=sh_ok,sh_ok_noext,sh_ok_ext,sh_rejected
 func zzDecHsServerHelloNoPanic() {
 	nv := zzsymChoice("varlen", zzsymParam("NSHVAR")+1)
 	data := zzsymBytes("d", messageServerHelloVariableWidthStart+nv)
@@ -80,11 +105,10 @@ func zzDecHsServerHelloNoPanic() {
 		return
 	}
 	zzsymAssert(len(m.SessionID) <= nv, "decoded_message_not_larger_than_body")
-	if zzsymEqBytes(data[2:34], HelloRetryRequestRandom()) {
-		zzsymCover("sh_hrr")
-	}
 	if len(m.Extensions) == 0 {
 		zzsymCover("sh_ok_noext")
+	} else {
+		zzsymCover("sh_ok_ext")
 	}
 	zzsymCover("sh_ok")
 }
